@@ -70,7 +70,7 @@ func setupFP(it *Item) *fpCtx {
 	case "anchoredliteral":
 		c.al = meta.DetectAnchoredLiteral(re)
 		c.applicable = c.al != nil
-	case "engine", "engine.IsMatch":
+	case "engine", "engine.IsMatch", "engine.Find":
 		e, err := meta.Compile(it.Pattern)
 		if err != nil {
 			panic(err)
@@ -122,6 +122,25 @@ func runC19(c *fpCtx, it *Item) {
 		return
 	case "engine":
 		got = span(c.eng.FindIndicesAt(h, at))
+	case "engine.Find":
+		// the *Match-returning family of meta.Engine (meta/find.go: its own dispatch over every strategy) and the
+		// index-returning one must both equal the reference; at > 0 through FindAt / FindIndicesAt
+		var m *meta.Match
+		var s0, e0 int
+		var ok bool
+		if at == 0 {
+			m = c.eng.Find(h)
+			s0, e0, ok = c.eng.FindIndices(h)
+		} else {
+			m = c.eng.FindAt(h, at)
+			s0, e0, ok = c.eng.FindIndicesAt(h, at)
+		}
+		if m != nil {
+			got = []int{m.Start(), m.End()}
+			verif.Assert(eqBytes(m.Bytes(), h[m.Start():m.End()]), "C19 Engine.Find: Match.Bytes is not the matched part of the haystack")
+		}
+		verif.SnapInts("gotidx", span(s0, e0, ok))
+		verif.Assert(eqInts(span(s0, e0, ok), want), "C19 Engine.FindIndices(At) differs from the reference")
 	case "engine.IsMatch":
 		g := c.eng.IsMatch(h)
 		w := c.std.Match(h)
